@@ -16,8 +16,8 @@ gref.LAYOUTS.setdefault('indent8', gref.Layout('indent8', indent='        '))
 GLOBAL_LAYOUTS += ['indent1', 'indent2tabs', 'indent8']
 INSERT_LINES = ['', '   ', '# c', '\x0c', '\t# c', '        # é', ' \t']
 LINE_ENDS = [' ', '\t', ' # c', '\x0c', ' #']
-IN_BRACKET = ['\n', '\n        ', ' # c\n  ', '\r\n\t']
-OUT_BRACKET = [' \\\n', '\\\n        ', ' \\\r\n']
+IN_BRACKET = ['\n', '\n        ', ' # c\n  ', '\r\n\t', '\r', ' # c\r\t']
+OUT_BRACKET = [' \\\n', '\\\n        ', ' \\\r\n', ' \\\r', '\\\r\t']
 
 
 def py_dump(text):
